@@ -823,6 +823,9 @@ def decision_tree(T, ifnode, epilogue_prefix=(), block=None):
                     if isinstance(x, ast.Call) and ast.unparse(x.func) == 'misc.symm':
                         off = ast.unparse(x.args[2]) if len(x.args) > 2 else ''
                         how = 'order %s over %s from %s step %s' % (ast.unparse(x.args[1]) if len(x.args) > 1 else '?', ast.unparse(st.iter), last_assign.get(off, '?'), steps.get(off, '?'))
+                        # the walk must be unconditional: a `continue` / `break` / `if` inside the loop can skip a block or its offset update
+                        cond = [y for y in ast.walk(st) if isinstance(y, (ast.Continue, ast.Break, ast.If, ast.IfExp, ast.While, ast.Try))]
+                        if cond: how += ' [conditional: %s]' % '; '.join(sorted({ast.unparse(y.test) if hasattr(y, 'test') else type(y).__name__ for y in cond}))
                         pre.append(('symm', ast.unparse(x.args[0]), ast.parse(repr(how)).body[0].value))
                 continue
             if isinstance(st, ast.Assign):
